@@ -74,6 +74,13 @@ class Layout:
                 elif fail == 'gotwant':
                     m = self.mark()
                     out += [('>>> print("right %s")' % m, 'src'), ('WRONG %s' % m, 'fail'), ('second want line %s' % m, 'want')]
+                elif fail == 'gotwant_after_bare_terminator':
+                    # the classic way to close a compound statement: a bare '...' line in front of the expected output
+                    m = self.mark()
+                    out += [('>>> for i in range(1):  # %s' % self.mark(), 'src'), ('...     print("x %s")' % m, 'src'), ('...', 'src'), ('WRONG %s' % m, 'fail'), ('more want %s' % m, 'want')]
+                elif fail == 'gotwant_after_bare_prompt':
+                    m = self.mark()
+                    out += [('>>> print("right %s")' % m, 'src'), ('>>>', 'src'), ('WRONG %s' % m, 'fail')]
                 elif fail == 'gotwant_after_multiline':
                     m = self.mark()
                     out += [('>>> print("a %s",' % m, 'src'), ('...       "b")', 'src'), ('WRONG %s' % m, 'fail')]
@@ -122,7 +129,7 @@ class Layout:
 
 HELPER = 'def failing_helper():\n    x = 1\n    raise KeyError("from helper")\n\n'
 FAILS = [None, 'raise', 'raise_multiline', 'call', 'call_in_block', 'gotwant', 'gotwant_after_multiline',
-         'raise_try_finally', 'raise_in_with', 'raise_reraise', 'raise_foreign_lineno']
+         'raise_try_finally', 'raise_in_with', 'raise_reraise', 'raise_foreign_lineno', 'gotwant_after_bare_terminator', 'gotwant_after_bare_prompt']
 
 
 def gen_module(rng):
